@@ -417,7 +417,7 @@ def _run_df(case, ctx, las):
     if df.index.name != keys[0] or list(df.columns) != keys[1:]:
         V("df-labels", "index %r columns %r, curves %r" % (df.index.name, list(df.columns), keys), detail)
         return
-    if not _col_same(df.index.values, las.curves[0].data):
+    if not _col_same(df.index.values, list(las.curves)[0].data):
         V("df-index-values", "the DataFrame index differs from the first curve", detail)
     for k, c in zip(keys[1:], list(las.curves)[1:]):
         if not _col_same(df[k].values, c.data):
